@@ -658,3 +658,84 @@ def r_loaderpc(repo, tier):
     if n < 10:
         raise AnalysisError("R-LOADPC: only %d OS loaders found (12 expected)" % n)
     return out
+
+
+QUERY_METHODS = ("loadsegment", "readsegment", "readsection", "getdata", "getinfo", "getfileoffset", "locate", "data", "_readcode")
+
+
+def r_purequery(repo, tier):
+    out = RuleOut(
+        "R-PUREQUERY",
+        "address/segment queries of the format classes (loadsegment, readsegment, readsection, getdata, getinfo, "
+        "getfileoffset, locate, data) are functions of the file and their argument only: they store nothing on self (no "
+        "memoisation keyed by a field that need not be unique, no cursor left behind); and Elf.loadsegment reads the file at a "
+        "position that depends on both p_offset and p_vaddr (the page offset subtracted from the address is subtracted from "
+        "the file offset too)",
+    )
+    n = 0
+    for rel, cname in (("amoco/system/elf.py", "Elf"), ("amoco/system/pe.py", "PE"), ("amoco/system/macho.py", "MachO"), ("amoco/system/coff.py", "COFF")):
+        c = repo.mod(rel).classes.get(cname)
+        if c is None:
+            raise AnalysisError("anchor vanished: class %s" % cname)
+        for mname in QUERY_METHODS:
+            f = c.methods.get(mname)
+            if f is None:
+                continue
+            n += 1
+            stores = []
+            for x in _walk_no_nested(f.node):
+                tg = x.targets if isinstance(x, ast.Assign) else ([x.target] if isinstance(x, ast.AugAssign) else [])
+                for t in tg:
+                    r = t
+                    while isinstance(r, (ast.Attribute, ast.Subscript)):
+                        r = r.value
+                    if isinstance(r, ast.Name) and r.id == "self" and t is not r:
+                        stores.append((x, t))
+            out.inst("%s::%s.%s" % (rel, cname, mname), {"query": "%s.%s" % (cname, mname), "stores_on_self": [norm(t) for _, t in stores]})
+            for x, t in stores:
+                # a memo table whose key contains a file position identifies the section/segment: allowed
+                if isinstance(t, ast.Subscript):
+                    keytxt = norm(t.slice)
+                    for a in ast.walk(f.node):
+                        if isinstance(a, ast.Assign) and isinstance(a.targets[0], ast.Name) and isinstance(t.slice, ast.Name) and a.targets[0].id == t.slice.id:
+                            keytxt += " " + norm(a.value)
+                    if any(k in keytxt for k in ("offset", "PointerToRawData", "id(", "vaddr", "VirtualAddress", "addr")):
+                        continue
+                out.report(rel, f.dqual, "store %s" % norm(t), x.lineno, "%s keeps state on self (%s): the answer to a later query can depend on earlier queries (e.g. a cache keyed by a section name, which need not be unique)" % (f.dqual, norm(t)))
+    # ELF page arithmetic: seek position depends on p_offset and p_vaddr
+    f = repo.func("amoco/system/elf.py", "Elf.loadsegment")
+    deps = {}
+    changed = True
+    while changed:
+        changed = False
+        for x in ast.walk(f.node):
+            if isinstance(x, ast.Assign) and isinstance(x.targets[0], ast.Name):
+                src = set()
+                for z in ast.walk(x.value):
+                    if isinstance(z, ast.Attribute) and z.attr.startswith("p_"):
+                        src.add(z.attr)
+                    elif isinstance(z, ast.Name) and z.id in deps:
+                        src |= deps[z.id]
+                t = x.targets[0].id
+                if not src <= deps.get(t, set()):
+                    deps[t] = deps.get(t, set()) | src
+                    changed = True
+    seeks = [x for x in ast.walk(f.node) if isinstance(x, ast.Call) and isinstance(x.func, ast.Attribute) and x.func.attr == "seek"]
+    if not seeks:
+        raise AnalysisError("R-PUREQUERY: no seek() in Elf.loadsegment")
+    for sk in seeks:
+        src = set()
+        for z in ast.walk(sk.args[0]):
+            if isinstance(z, ast.Attribute) and z.attr.startswith("p_"):
+                src.add(z.attr)
+            elif isinstance(z, ast.Name) and z.id in deps:
+                src |= deps[z.id]
+        n += 1
+        out.inst("%s::seek" % f.key, {"seek": norm(sk), "depends_on": sorted(src)})
+        for need in ("p_offset", "p_vaddr"):
+            if need not in src:
+                out.report(f.file, f.dqual, "seek position independent of %s" % need, sk.lineno, "the file position the segment image is read from (%s) does not depend on %s: the image base is the page start of p_vaddr, so the same page offset must be subtracted from p_offset; otherwise segments with p_offset and p_vaddr not congruent modulo the page size are shifted" % (norm(sk.args[0]), need))
+    out.stats["queries"] = n
+    if n < 12:
+        raise AnalysisError("R-PUREQUERY: only %d query methods found" % n)
+    return out
